@@ -243,8 +243,11 @@ EvUnobserveRet == /\ IsEv("UnobserveRet") /\ obsSt' = [obsSt EXCEPT ![Ev.tag] = 
                   /\ UNCHANGED <<obsOf, obsIdx, obsRetAt, nObs, dataTag, dataPend, dataPre, stage, seen, mustObs, annAtClose>> /\ C03U /\ C04U /\ Keep
 EvSetDataCall == /\ IsEv("SetDataCall") /\ dataPend' = [dataPend EXCEPT ![Ev.s] = @ \cup {Ev.tag}]
                  /\ UNCHANGED <<obsOf, obsIdx, obsRetAt, obsSt, nObs, dataTag, dataPre, stage, seen, mustObs, annAtClose>> /\ C03U /\ C04U /\ Keep
+\* (a setSessionData that replaces the data while the close of the session is under way may come after the close handler
+\* has taken the old data out for its cleanup step: the data it replaces stays a candidate for that cleanup)
 EvSetDataRet == /\ IsEv("SetDataRet") /\ dataTag' = [dataTag EXCEPT ![Ev.s] = Ev.tag]
-                /\ dataPend' = [dataPend EXCEPT ![Ev.s] = @ \ {Ev.tag}]
+                /\ dataPend' = [dataPend EXCEPT ![Ev.s] = (@ \ {Ev.tag}) \cup
+                                   (IF stage[Ev.s] \in {"start", "global", "obs"} /\ dataTag[Ev.s] # "-" THEN {dataTag[Ev.s]} ELSE {})]
                 /\ UNCHANGED <<obsOf, obsIdx, obsRetAt, obsSt, nObs, dataPre, stage, seen, mustObs, annAtClose>> /\ C03U /\ C04U /\ Keep
 
 EvCloseCall == /\ IsEv("CloseCall") /\ stage[Ev.s] = "none"                     \* exactly one close per session
